@@ -230,6 +230,28 @@ func runC07(c c07Case, exhaustiveBits bool) string {
 		if msg := judge(it.fac, enc(it.nonce, append(append([]byte{}, it.ct...), byte(r.n(256)))), "ct-extend"); msg != "" {
 			return msg
 		}
+		// the same bytes divided differently between the two fields (the boundary is part of what was issued)
+		for k := 0; k <= len(raw); k++ {
+			if k == 12 {
+				continue
+			}
+			vlib.NT("c07", "resplit", k < 12, k == 0 || k == len(raw))
+			vlib.Class("mutation:field-boundary-moved")
+			reach++
+			if msg := judge(it.fac, enc(raw[:k], raw[k:]), "resplit-field-boundary"); msg != "" {
+				return msg
+			}
+		}
+		if i := strings.IndexByte(it.tok, ':'); i > 0 {
+			bare := it.tok[:i] + it.tok[i+1:]
+			for _, d := range []int{-8, -4, -3, -2, -1, 1, 2, 3, 4, 8} {
+				if j := i + d; j >= 0 && j <= len(bare) {
+					if msg := judge(it.fac, bare[:j]+":"+bare[j:], "separator-moved"); msg != "" {
+						return msg
+					}
+				}
+			}
+		}
 		// splices between tokens
 		for _, ot := range toks {
 			if string(ot.nonce) == string(it.nonce) {
